@@ -633,12 +633,83 @@ def r47(ctx, fx):
                     "branch that is barely too far alternates between in and out of range and is never reported at the branch", "%s:%s" % (et.file, ifs[0].get("ln")))
 
 
+# stacks / depth counters of the code generator that live across passes: whatever is pushed must be popped on every way out, the error exits included
+BALANCED = {"import_stack": ("push", "pop"), "current_scope": ("push", "pop"), "macro_depth": ("+=", "-=")}
+
+
+def r48(ctx, fx):
+    rid = ctx.rule("R4.8", "an error leaves no state behind for the next pass: in every function of the code generator that pushes onto `import_stack` / "
+                   "`current_scope` or increments `macro_depth`, every path from the push to a return — the `?` and `return Err` exits too — passes the matching "
+                   "pop / decrement (must-pass on the MIR CFG). A stack that keeps the file of a failed import makes the next pass report a `cyclic import` at "
+                   "the import statement, and the pass loop, which reports what two consecutive passes agree on, shows only that")
+    CC = "mos_core::codegen::CodegenContext"
+    n = 0
+    for f in sorted(fx.all_fns("mos_core"), key=lambda f: f.path):
+        if "::tests::" in f.path or not f.path.lstrip("<").startswith("mos_core::codegen") or not f.blocks:
+            continue
+        for fld, (up, down) in sorted(BALANCED.items()):
+            ups, downs = [], []
+            if up == "push":
+                # calls of push / pop whose receiver is `&mut self.<fld>`
+                du = lib.DefUse(f)
+                for bi, t in lib.calls(f):
+                    cp = lib.norm(lib.callee(t)[0] or "")
+                    if not cp.endswith(("::push", "::pop")) or not t.get("args"):
+                        continue
+                    r = lib.op_local(t["args"][0])
+                    d = du.single_def(r) if r is not None else None
+                    if not (d and d[2] == "assign" and d[3]["rv"]["k"] == "ref" and lib.place_fields(d[3]["rv"]["place"])[-1:] == [fld]):
+                        continue
+                    if cp.endswith("::push"):
+                        ups.append((bi, t.get("line")))
+                    else:
+                        downs.append(bi)
+            else:
+                for bi, si, st in lib.stmts(f):
+                    if st["k"] != "assign" or lib.place_fields(st["dst"])[-1:] != [fld]:
+                        continue
+                    rv = st["rv"]
+                    op = str(rv.get("op", "")).replace("WithOverflow", "") if rv["k"] in ("binop", "checked_binop") else None
+                    if op == "Add":
+                        ups.append((bi, st.get("line")))
+                    elif op == "Sub":
+                        downs.append(bi)
+                # overflow-checked arithmetic assigns the field from a temporary: find `tmp = self.fld + 1` followed by `self.fld = move tmp.0`
+                if not ups and not downs:
+                    for bi, si, st in lib.stmts(f):
+                        if st["k"] == "assign" and st["rv"]["k"] in ("binop", "checked_binop"):
+                            l = st["rv"].get("l")
+                            pl = lib.op_place(l) if l is not None else None
+                            if pl and lib.place_fields(pl)[-1:] == [fld]:
+                                op = str(st["rv"].get("op", "")).replace("WithOverflow", "")
+                                if op == "Add":
+                                    ups.append((bi, st.get("line")))
+                                elif op == "Sub":
+                                    downs.append(bi)
+            if not ups:
+                continue
+            rets = lib.return_blocks(f)
+            for j, (bi, line) in enumerate(ups):
+                n += 1
+                key = "%s|%s|balanced#%d" % (f.path, fld, j + 1)
+                after = [x for x in lib.succs(f)[bi] if not f.blocks[x]["cleanup"]] if up == "push" else [bi]
+                esc = [r for r in rets if any(not lib.must_pass(f, downs, r, start=a) for a in after if a not in downs)]
+                ctx.inst(rid, key, sample={"fn": f.path, "field": fld, "pushed_at_line": line, "pops": len(downs), "returns_reachable_without_pop": len(esc)})
+                if esc:
+                    ctx.finding(rid, key, "%s pushes onto `%s` (line %s) and can return without the matching pop: an error inside (`?`) leaves the entry behind, it is "
+                                "still there in the next pass, and what that pass reports is a consequence of the leftover instead of the error itself" % (
+                                    f.path.rsplit("::", 1)[-1], fld, line), "%s:%s" % (f.file, line))
+    if n < 3:
+        ctx.fail_closed(rid, "fewer than 3 pushes onto the code generator's stacks found (%d; import_stack, current_scope and macro_depth were counted)" % n)
+
+
 def run(ctx):
     fx = ctx.facts
     cg = lib.CallGraph(fx)
     r45(ctx, fx)
     r46(ctx, fx)
     r47(ctx, fx)
+    r48(ctx, fx)
     r41(ctx, fx, cg)
     r42(ctx, fx)
     r43(ctx, fx)
